@@ -65,6 +65,10 @@ def main() -> None:
             files = sorted({l[6:].split("/")[-1] for l in diff.splitlines() if l.startswith("+++ b/")})
             det = "; ".join(f"{k}: {'silent' if v['exit'] == 0 else ('ALARM' if v['exit'] == 1 else 'inconclusive')}"
                             for k, v in m.get("checks", {}).items()) or m.get("apply_error", "")[:80]
+            if m.get("no_longer_applicable"):
+                det += " - no longer applies to the repaired tree (verdict from before the repair)"
+            elif m.get("rebased"):
+                det += " (re-expressed on the repaired tree)"
             rrows.append(f"| {d.name} | {', '.join(files)} | {m.get('diffstat', '')} | {det} |")
     text = ["## 9. Seeded changes and which checks catch them", "",
             "### 9.1 Changes written by independent sub-agents (`/verif/seeded/<id>-<A|B>/`)", "",
